@@ -16,6 +16,14 @@ claimed = {
         "The probability statement (exact uniformity) is a paper step over these proved structural facts.",
    note=TRUSTED + " Counting arguments (uniform bits mod 2^b are uniform; choice-vector/permutation bijection) are not machine-checked.",
    design="§5 C15"),
+ "C14": dict(
+   text="NewChacha20PRG, (*chachaCore).Read, (*chachaPRG).Store and RestoreChacha20PRG are verified against contracts stated over an assumed "
+        "contract of x/crypto/chacha20 (ghost stream identity = function of the 44 key/nonce bytes, ghost position): Read returns exactly the keystream "
+        "bytes [pos, pos+len) on both code paths and keeps bytesCounter == pos; Store is seed||customizer||LE64(counter); Restore rebuilds the same "
+        "stream identity and position (block counter + partial block arithmetic, uint32 truncation) for every counter < 2^38; length errors exact. "
+        "Proved for all seeds, customizers, read sizes and store points, no bound.",
+   note=TRUSTED + " x/crypto/chacha20 (incl. its assembly) is RFC 8439: assumed contract in contracts/trusted/chacha20.spec. Use beyond 2^38 bytes is outside the contract.",
+   design="§5 C14"),
 }
 
 na_reason = {p: "verifier support for this property is not built yet (engine under construction); not claimed rather than checked with another technique" for p in props}
